@@ -13,7 +13,7 @@ Init == \E r0 \in R0s : StInit(r0)
 Next ==
   \/ \E m \in GetMins : DoGet(m)
   \/ \E off \in Offsets, ds \in BlockSizes : DoSet(off, off + ds)
-  \/ \E gap \in Set2Gaps, bsz \in Set2Sizes, who \in Readers \cup {"none"} : DoSet2(gap, bsz, who)
+  \/ \E gap \in Set2Gaps, bsz \in Set2Sizes, who \in Readers \cup {-1} : DoSet2(gap, bsz, who)
   \/ \E r \in Readers, ds \in InitBacks : DoInit(r, ds)
   \/ \E r \in Readers : DoAvail(r)
   \/ \E r \in Readers, dsz \in DataSizes, cnt \in IovCnts : DoDataGet(r, dsz, cnt)
